@@ -15,8 +15,9 @@ def main():
                 'non-trivial = at least one set returned / one publish; distinct by hash of the item list; join family: the real receiver on '
                 '2-3 subscribe-all sources publishing in lock step, every schedule checked inside Coq to satisfy the hypotheses of '
                 'C01_join_lossless (joinA_hyps), rows handed over compared with the published matrix and with the model')
-    run.partial = ['the tee-rejoin corollary ("every rejoined set descends from one original frame") over the network model is explored in pipeline mode (C03 check, rejoin topology), not proved; '
-                   'its ingredients are: C01_no_mixed_ids, C01_complete_per_source, C01_publisher_wf, C01_id_carried',
+    run.partial = ['the tee-rejoin clause is proved as a composition of the machines (C01_rejoin_descends_from_one_frame) under the hypotheses that the channels deliver '
+                   'in order without loss and that the relays do what MQGlue.v says (compared with the real MQ in this run); that every frame does reach the join '
+                   '(progress) is explored in pipeline mode (C03 check, rejoin topology), not proved',
                    "a publisher killed between two parts of one publish, and topic names containing '/', are outside the model's network rules"]
     run.assumptions = ['ghost provenance (id, source) recorded when a wire message is read identifies the upstream publish',
                        'poll answers report only registered, non-empty sockets, each at most once (anything else ends the run: Dead)']
